@@ -73,7 +73,7 @@ def setupW (N : Sctl → Nat → Nat → Data → Prog) (E : Sctl → Nat → Na
 
 theorem setup_run (N E C init tag evs) (w : World) (hs : w.status = .ok) (hh : w.held = [])
     (fuel : Nat) (st : List Prog) :
-    run (fuel + 14) ((Prog.obsvNew (genOp N E C init (oScript tag true evs)) fun id =>
+    run (fuel + 15) ((Prog.obsvNew (genOp N E C init (oScript tag true evs)) fun id =>
         .userSub id (fun _ _ _ => .done) .done) :: st) w
       = run fuel (scriptLoop tag true (w.obs.length + 1) evs :: .userReady w.users.length .done :: st)
           (setupW N E C init (genOp N E C init (oScript tag true evs)) tag w) := by
@@ -83,7 +83,7 @@ theorem setup_run (N E C init tag evs) (w : World) (hs : w.status = .ok) (hh : w
   simp only [genOp, run, sctlNew, Sctl.newObserver, Obsv.sub, oScript, List.getElem?_concat_length,
     World.conflicts, List.any_nil, World.setObs, World.emit, Bool.false_eq_true, ↓reduceIte, Bool.and_false,
     List.append_assoc, List.cons_append, List.nil_append, List.length_append, List.length_cons, List.length_nil,
-    modify_concat_length, get3_0, get3_1, set3_0, set3_1, get2_1, Option.getD_some, Data.toInt, Int.toNat_zero,
+    modify_concat_length, get3_0, get3_1, set3_0, set3_1, get2_0, get2_1, Option.getD_some, Data.toInt, Int.toNat_zero,
     Obs.isSub, Option.isSome_some, Bool.and_self, Nat.zero_add, Nat.reduceAdd]
   rfl
 
@@ -157,9 +157,9 @@ theorem stdOp_simX {σ} (K : Kernel σ) (hK : Kernel.WellEncoded K) (w : World) 
       (setupW (stdN K) (stdE K) (stdC K) (K.enc K.init) (stdOp K (oScript tag true s.toEvs)) tag w) :=
     setup_rep _ _ _ _ _ _ w (hw.inv.quiet _ (Nat.le_refl _))
   obtain ⟨n, w2, ⟨cs', h2⟩, hrun⟩ := loop_spec ok (std_handlers K w) hK tag s.2 s.1 K.init {} _ h1
-  refine ⟨n + 17, fun fuel hf => ?_⟩
-  obtain ⟨k, rfl⟩ : ∃ k, fuel = k + 1 + 1 + 1 + n + 14 := ⟨fuel - (n + 17), by omega⟩
-  have e : run (k + 1 + 1 + 1 + n + 14) [subscribeScript K tag s] w
+  refine ⟨n + 18, fun fuel hf => ?_⟩
+  obtain ⟨k, rfl⟩ : ∃ k, fuel = k + 1 + 1 + 1 + n + 15 := ⟨fuel - (n + 18), by omega⟩
+  have e : run (k + 1 + 1 + 1 + n + 15) [subscribeScript K tag s] w
       = w2.setUser w.users.length fun u => { u with ready := true } := by
     show run _ ((Prog.obsvNew (genOp (stdN K) (stdE K) (stdC K) (K.enc K.init)
       (oScript tag true s.toEvs)) _) :: _) w = _
